@@ -247,9 +247,11 @@ Fixpoint read_loop (fuel : nat) (addr remaining chunk : Z) (acc : list Z) : M (l
     else read_loop f (wrapu 64 (addr + n)) (remaining - n) chunk (acc ++ data)
   end.
 
-(* verify_range: [address, address + len) must lie in the 64 bit address space *)
+(* verify_range: [address, address + len) must lie in the 64 bit address space.  The address is a
+   u64 in the code; the model, whose addresses are integers, refuses a negative one here so that it
+   says nothing about inputs outside the type. *)
 Definition verify_range (addr len : Z) : M unit :=
-  if 2 ^ 64 <? addr + len then fail CE_INVALID_DATA else ret tt.
+  if (addr <? 0) || (2 ^ 64 <? addr + len) then fail CE_INVALID_DATA else ret tt.
 
 Definition ctl_read (addr len : Z) : M (list Z) :=
   do _ <- assert_open;
